@@ -88,7 +88,7 @@ def rand_stim(rnd, m, slen, lanes, families=True):
     return [[cols[p][i] for p in range(lanes)] for i in range(slen)]
 
 
-def record(c, st, m, lanes, stim, reuse, strip, use_cb, rnd, cycles=(), wide=None):
+def record(c, st, m, lanes, stim, reuse, strip, use_cb, rnd, cycles=(), wide=None, force_warm=False):
     """Observation record of the real simulator for LogicSimT.tla.
     wide = [N, positions]: the simulator is built for N patterns (beyond 8- and 16-bit ranges); the recorded stimulus
     columns sit at the given lane positions, all other lanes carry a derived filler; only the sampled lanes are recorded."""
@@ -96,7 +96,7 @@ def record(c, st, m, lanes, stim, reuse, strip, use_cb, rnd, cycles=(), wide=Non
                opts=dict(reuse=reuse, strip=strip, cb=use_cb))
     try:
         noop = (lambda line, v: None)
-        warm = rand_stim(rnd, m, len(stim), lanes, families=False) if rnd.random() < 0.4 else None
+        warm = rand_stim(rnd, m, len(stim), lanes, families=False) if (rnd.random() < 0.4 or force_warm) else None
         n, sel, full = lanes, lanes, stim
         if wide is not None:
             n, sel = int(wide[0]), [int(x) for x in wide[1]]
